@@ -10,10 +10,10 @@ Arguments Nat.eqb : simpl never.
 Ltac mc := cbn [m_reg m_open m_log m_in mi_script mi_k mi_st].
 Ltac mc_in H := cbn [m_reg m_open m_log m_in mi_script mi_k mi_st] in H.
 
-Lemma mupd_same f i x : mupd f i x i = x.
-Proof. unfold mupd. now rewrite Nat.eqb_refl. Qed.
-Lemma mupd_other f i x q : q <> i -> mupd f i x q = f q.
-Proof. unfold mupd. intro H. apply Nat.eqb_neq in H. now rewrite H. Qed.
+Lemma mupd_same f i x : mgupd f i x i = x.
+Proof. unfold mgupd. now rewrite Nat.eqb_refl. Qed.
+Lemma mupd_other f i x q : q <> i -> mgupd f i x q = f q.
+Proof. unfold mgupd. intro H. apply Nat.eqb_neq in H. now rewrite H. Qed.
 
 Lemma remove_nat_in i j l : In j (remove_nat i l) <-> In j l /\ j <> i.
 Proof.
@@ -35,7 +35,7 @@ Proof.
   destruct k; cbn [firstn nth app]; auto. f_equal. apply IH. lia.
 Qed.
 
-Record MInv (c : mcfg) : Prop := {
+Record MInv (c : mgcfg) : Prop := {
   mv_nodup : NoDup (m_reg c);
   mv_reg : forall i, In i (m_reg c) <-> mi_st (m_in c i) = MRunning;
   mv_closed : m_open c = false -> m_reg c = [] /\ forall i, mi_st (m_in c i) <> MLast;
@@ -60,7 +60,7 @@ Lemma minv_item c i :
   MInv c -> mi_st (m_in c i) = MRunning -> mi_k (m_in c i) < length (mi_script (m_in c i)) ->
   MInv {| m_reg := m_reg c; m_open := m_open c;
           m_log := if m_open c then m_log c ++ [MI i (nth (mi_k (m_in c i)) (mi_script (m_in c i)) 0)] else m_log c;
-          m_in := mupd (m_in c) i {| mi_script := mi_script (m_in c i); mi_k := S (mi_k (m_in c i)); mi_st := MRunning |} |}.
+          m_in := mgupd (m_in c) i {| mi_script := mi_script (m_in c i); mi_k := S (mi_k (m_in c i)); mi_st := MRunning |} |}.
 Proof.
   intros I R LT. destruct (running_open c i I R) as [O RG]. rewrite O.
   constructor; mc.
@@ -82,7 +82,7 @@ Qed.
 Lemma minv_end c i :
   MInv c -> mi_st (m_in c i) = MRunning -> ~ mi_k (m_in c i) < length (mi_script (m_in c i)) ->
   MInv {| m_reg := remove_nat i (m_reg c); m_open := m_open c; m_log := m_log c;
-          m_in := mupd (m_in c) i {| mi_script := mi_script (m_in c i); mi_k := mi_k (m_in c i);
+          m_in := mgupd (m_in c) i {| mi_script := mi_script (m_in c i); mi_k := mi_k (m_in c i);
                                      mi_st := match remove_nat i (m_reg c) with [] => MLast | _ => MDone end |} |}.
 Proof.
   intros I R GE. destruct (running_open c i I R) as [O RG].
@@ -109,7 +109,7 @@ Qed.
 Lemma minv_fin c i :
   MInv c -> mi_st (m_in c i) = MLast ->
   MInv {| m_reg := m_reg c; m_open := false; m_log := if m_open c then m_log c ++ [MC] else m_log c;
-          m_in := mupd (m_in c) i {| mi_script := mi_script (m_in c i); mi_k := mi_k (m_in c i); mi_st := MDone |} |}.
+          m_in := mgupd (m_in c) i {| mi_script := mi_script (m_in c i); mi_k := mi_k (m_in c i); mi_st := MDone |} |}.
 Proof.
   intros I L. destruct (mv_last c I i L) as (RE & O & U). rewrite O.
   constructor; mc.
@@ -136,7 +136,7 @@ Qed.
 Lemma minv_reg c i j :
   MInv c -> mi_st (m_in c i) = MRunning -> mi_st (m_in c j) = MNotYet ->
   MInv {| m_reg := m_reg c ++ [j]; m_open := m_open c; m_log := m_log c;
-          m_in := mupd (m_in c) j {| mi_script := mi_script (m_in c j); mi_k := mi_k (m_in c j); mi_st := MRunning |} |}.
+          m_in := mgupd (m_in c) j {| mi_script := mi_script (m_in c j); mi_k := mi_k (m_in c j); mi_st := MRunning |} |}.
 Proof.
   intros I R N. destruct (running_open c i I R) as [O RG].
   assert (NOLAST : forall q, mi_st (m_in c q) = MLast -> False).
@@ -155,9 +155,9 @@ Proof.
   - apply (mv_comp c I).
 Qed.
 
-Lemma mstep_inv c a : MInv c -> MInv (mstep c a).
+Lemma mstep_inv c a : MInv c -> MInv (mgstep c a).
 Proof.
-  intro I. destruct a as [i|i|i|i j]; unfold mstep; cbv zeta.
+  intro I. destruct a as [i|i|i|i j]; unfold mgstep; cbv zeta.
   - destruct (mi_st (m_in c i)) eqn:S; try exact I. destruct (Nat.ltb _ _) eqn:LT; [|exact I].
     apply Nat.ltb_lt in LT. now apply minv_item.
   - destruct (mi_st (m_in c i)) eqn:S; try exact I. destruct (Nat.ltb _ _) eqn:LT; [exact I|].
@@ -166,9 +166,9 @@ Proof.
   - destruct (mi_st (m_in c i)) eqn:S; try exact I. destruct (mi_st (m_in c j)) eqn:S'; try exact I. now apply (minv_reg c i j).
 Qed.
 
-Lemma minit_inv n scripts : 1 <= n -> MInv (minit n scripts).
+Lemma minit_inv n scripts : 1 <= n -> MInv (mginit n scripts).
 Proof.
-  intro N. constructor; unfold minit; mc.
+  intro N. constructor; unfold mginit; mc.
   - apply seq_NoDup.
   - intro i. rewrite in_seq. destruct (Nat.ltb i n) eqn:E; [apply Nat.ltb_lt in E | apply Nat.ltb_ge in E]; split; try discriminate; auto; lia.
   - discriminate.
@@ -180,24 +180,24 @@ Proof.
   - reflexivity.
 Qed.
 
-Lemma mrun_inv acts : forall c, MInv c -> MInv (mrun acts c).
-Proof. induction acts as [|a acts IH]; intros c I; cbn [mrun fold_left]; auto. apply IH. now apply mstep_inv. Qed.
+Lemma mrun_inv acts : forall c, MInv c -> MInv (mgrun acts c).
+Proof. induction acts as [|a acts IH]; intros c I; cbn [mgrun fold_left]; auto. apply IH. now apply mstep_inv. Qed.
 
-Lemma mstep_script c a i : mi_script (m_in (mstep c a) i) = mi_script (m_in c i).
+Lemma mstep_script c a i : mi_script (m_in (mgstep c a) i) = mi_script (m_in c i).
 Proof.
-  destruct a as [j|j|j|j j']; unfold mstep; cbv zeta.
-  - destruct (mi_st (m_in c j)); auto. destruct (Nat.ltb _ _); auto. mc. unfold mupd. destruct (Nat.eqb i j) eqn:E; auto.
+  destruct a as [j|j|j|j j']; unfold mgstep; cbv zeta.
+  - destruct (mi_st (m_in c j)); auto. destruct (Nat.ltb _ _); auto. mc. unfold mgupd. destruct (Nat.eqb i j) eqn:E; auto.
     apply Nat.eqb_eq in E. now subst.
-  - destruct (mi_st (m_in c j)); auto. destruct (Nat.ltb _ _); auto. mc. unfold mupd. destruct (Nat.eqb i j) eqn:E; auto.
+  - destruct (mi_st (m_in c j)); auto. destruct (Nat.ltb _ _); auto. mc. unfold mgupd. destruct (Nat.eqb i j) eqn:E; auto.
     apply Nat.eqb_eq in E. now subst.
-  - destruct (mi_st (m_in c j)); auto. mc. unfold mupd. destruct (Nat.eqb i j) eqn:E; auto. apply Nat.eqb_eq in E. now subst.
-  - destruct (mi_st (m_in c j)); auto. destruct (mi_st (m_in c j')); auto. mc. unfold mupd. destruct (Nat.eqb i j') eqn:E; auto.
+  - destruct (mi_st (m_in c j)); auto. mc. unfold mgupd. destruct (Nat.eqb i j) eqn:E; auto. apply Nat.eqb_eq in E. now subst.
+  - destruct (mi_st (m_in c j)); auto. destruct (mi_st (m_in c j')); auto. mc. unfold mgupd. destruct (Nat.eqb i j') eqn:E; auto.
     apply Nat.eqb_eq in E. now subst.
 Qed.
-Lemma mrun_script acts : forall c i, mi_script (m_in (mrun acts c) i) = mi_script (m_in c i).
+Lemma mrun_script acts : forall c i, mi_script (m_in (mgrun acts c) i) = mi_script (m_in c i).
 Proof.
-  induction acts as [|a acts IH]; intros c i; cbn [mrun fold_left]; auto.
-  fold (mrun acts (mstep c a)). now rewrite IH, mstep_script.
+  induction acts as [|a acts IH]; intros c i; cbn [mgrun fold_left]; auto.
+  fold (mgrun acts (mgstep c a)). now rewrite IH, mstep_script.
 Qed.
 
 (* at every moment, under every interleaving: each input's items arrive in script order, none lost, none twice;
@@ -205,7 +205,7 @@ Qed.
    its whole script *)
 Theorem merge_conserves n scripts acts :
   1 <= n ->
-  let c := mrun acts (minit n scripts) in
+  let c := mgrun acts (mginit n scripts) in
   (forall i, mitems i (m_log c) = firstn (mi_k (m_in c i)) (scripts i)) /\
   mcompletes (m_log c) <= 1 /\
   (m_open c = false ->
@@ -229,8 +229,8 @@ Qed.
 (* when nothing can move any more the subscriber has been completed (exactly once, last) *)
 Theorem merge_terminates n scripts acts :
   1 <= n ->
-  let c := mrun acts (minit n scripts) in
-  (forall a, mstep c a = c) -> m_open c = false.
+  let c := mgrun acts (mginit n scripts) in
+  (forall a, mgstep c a = c) -> m_open c = false.
 Proof.
   intros N c Q. assert (I : MInv c) by (apply mrun_inv, minit_inv, N).
   destruct (m_open c) eqn:O; auto. exfalso.
@@ -238,11 +238,424 @@ Proof.
   - destruct (m_reg c) as [|i r] eqn:RE; [congruence|].
     assert (R : mi_st (m_in c i) = MRunning) by (apply (mv_reg c I); rewrite RE; now left).
     destruct (Nat.ltb (mi_k (m_in c i)) (length (mi_script (m_in c i)))) eqn:LT.
-    + pose proof (Q (MItem i)) as E. unfold mstep in E. cbv zeta in E. rewrite R, LT in E.
+    + pose proof (Q (MItem i)) as E. unfold mgstep in E. cbv zeta in E. rewrite R, LT in E.
       apply (f_equal (fun x => mi_k (m_in x i))) in E. mc_in E. rewrite mupd_same in E. mc_in E. lia.
-    + pose proof (Q (MEnd i)) as E. unfold mstep in E. cbv zeta in E. rewrite R, LT in E.
+    + pose proof (Q (MEnd i)) as E. unfold mgstep in E. cbv zeta in E. rewrite R, LT in E.
       apply (f_equal (fun x => mi_st (m_in x i))) in E. mc_in E. rewrite mupd_same in E. mc_in E. rewrite R in E.
       destruct (remove_nat i (m_reg c)); discriminate.
-  - pose proof (Q (MFin i)) as E. unfold mstep in E. cbv zeta in E. rewrite L in E.
+  - pose proof (Q (MFin i)) as E. unfold mgstep in E. cbv zeta in E. rewrite L in E.
     apply (f_equal m_open) in E. mc_in E. congruence.
+Qed.
+
+(* ================================================================== zip *)
+Ltac zc := cbn [z_n z_q z_k z_p z_pc z_script z_log].
+Ltac zc_in H := cbn [z_n z_q z_k z_p z_pc z_script z_log] in H.
+
+Lemma fupd_same {A} (f : nat -> A) i x : fupd f i x i = x.
+Proof. unfold fupd. now rewrite Nat.eqb_refl. Qed.
+Lemma fupd_other {A} (f : nat -> A) i x q : q <> i -> fupd f i x q = f q.
+Proof. unfold fupd. intro H. apply Nat.eqb_neq in H. now rewrite H. Qed.
+Ltac fu q i := let NE := fresh "NE" in destruct (Nat.eq_dec q i) as [->|NE]; [rewrite ?fupd_same in * | rewrite ?(fupd_other _ _ _ _ NE) in *].
+
+Lemma skipn_S_tl {A} (l : list A) n : skipn (S n) l = tl (skipn n l).
+Proof. revert l. induction n as [|n IH]; intro l; destruct l; cbn [skipn tl]; auto. rewrite <- IH. reflexivity. Qed.
+Lemma hd_skipn_firstn (s : list nat) P k : P < k -> k <= length s -> hd 0 (skipn P (firstn k s)) = nth P s 0.
+Proof.
+  revert P k. induction s as [|x s IH]; intros P k H1 H2; cbn [length] in H2; [lia|].
+  destruct k; [lia|]. cbn [firstn]. destruct P; cbn [skipn hd nth]; auto. apply IH; lia.
+Qed.
+Lemma firstn_S_nth' (l : list nat) k : k < length l -> firstn (S k) l = firstn k l ++ [nth k l 0].
+Proof.
+  revert k. induction l as [|x l IH]; intros k H; cbn [length] in H; [lia|].
+  destruct k; cbn [firstn nth app]; auto. f_equal. apply IH. lia.
+Qed.
+Lemma skipn_app_le {A} (l1 l2 : list A) n : n <= length l1 -> skipn n (l1 ++ l2) = skipn n l1 ++ l2.
+Proof.
+  revert n. induction l1 as [|x l1 IH]; intros n H; cbn [length] in H.
+  - assert (n = 0) by lia. subst. reflexivity.
+  - destruct n; cbn [skipn app]; auto. apply IH. lia.
+Qed.
+
+Lemma all_filled_spec n q : all_filled n q = true <-> forall i, i < n -> q i <> [].
+Proof.
+  unfold all_filled. rewrite forallb_forall. split; intros H i Hi.
+  - specialize (H i). rewrite in_seq in H. specialize (H ltac:(lia)). destruct (q i); [discriminate | discriminate].
+  - apply in_seq in Hi. specialize (H i ltac:(lia)). destruct (q i); [congruence | reflexivity].
+Qed.
+
+Definition holding (c : zcfg) (m : nat) : Prop := exists i t, z_pc c i = ZHold m t.
+Definition busy (c : zcfg) : Prop := exists i, z_pc c i <> ZIdle.
+
+Record ZInv (c : zcfg) : Prop := {
+  zv_q : forall i, i < z_n c -> z_k c i <= length (z_script c i) /\ z_p c <= z_k c i /\
+                                 z_q c i = skipn (z_p c) (firstn (z_k c i) (z_script c i));
+  zv_cover : forall m, m < z_p c <-> In m (map fst (z_log c)) \/ holding c m;
+  zv_nodup : NoDup (map fst (z_log c));
+  zv_hold_new : forall i m t, z_pc c i = ZHold m t -> ~ In m (map fst (z_log c));
+  zv_hold_one : forall i j m t t', z_pc c i = ZHold m t -> z_pc c j = ZHold m t' -> i = j;
+  zv_row_log : forall m t, In (m, t) (z_log c) -> t = row (z_n c) (z_script c) m;
+  zv_row_hold : forall i m t, z_pc c i = ZHold m t -> t = row (z_n c) (z_script c) m;
+  zv_live : all_filled (z_n c) (z_q c) = true -> busy c }.
+
+Lemma nodup_snoc' (l : list nat) j : NoDup l -> ~ In j l -> NoDup (l ++ [j]).
+Proof.
+  induction l as [|x l IH]; intros N H; cbn [app]; [constructor; [intros []|constructor]|].
+  inversion N as [|? ? H1 H2]; subst. constructor.
+  - rewrite in_app_iff. cbn [In]. intros [A|[A|[]]]; [auto | subst; apply H; now left].
+  - apply IH; auto. intro A. apply H. now right.
+Qed.
+
+Lemma zq_len c i : ZInv c -> i < z_n c -> length (z_q c i) = z_k c i - z_p c.
+Proof.
+  intros I H. destruct (zv_q c I i H) as (A & B & C). rewrite C, skipn_length, firstn_length_le by exact A. reflexivity.
+Qed.
+
+Lemma zinv_push c i :
+  ZInv c -> z_pc c i = ZIdle -> i < z_n c -> z_k c i < length (z_script c i) ->
+  ZInv {| z_n := z_n c; z_q := fupd (z_q c) i (z_q c i ++ [nth (z_k c i) (z_script c i) 0]);
+          z_k := fupd (z_k c) i (S (z_k c i)); z_p := z_p c; z_pc := fupd (z_pc c) i ZLoop; z_script := z_script c; z_log := z_log c |}.
+Proof.
+  intros I PC LI LT.
+  assert (HOLD : forall j m t, fupd (z_pc c) i ZLoop j = ZHold m t <-> z_pc c j = ZHold m t).
+  { intros j m t. fu j i; [rewrite PC; split; discriminate | tauto]. }
+  constructor; zc.
+  - intros j Hj. destruct (zv_q c I j Hj) as (A & B & C). fu j i.
+    + split; [lia|]. split; [lia|]. rewrite firstn_S_nth' by exact LT. rewrite skipn_app_le; [now rewrite C|].
+      rewrite firstn_length_le; lia.
+    + auto.
+  - intro m. rewrite (zv_cover c I m). unfold holding. zc. split; (intros [H|(j & t & H)]; [now left | right; exists j, t; now apply HOLD]).
+  - apply (zv_nodup c I).
+  - intros j m t H. apply HOLD in H. apply (zv_hold_new c I j m t H).
+  - intros j j' m t t' H H'. apply HOLD in H. apply HOLD in H'. apply (zv_hold_one c I j j' m t t' H H').
+  - apply (zv_row_log c I).
+  - intros j m t H. apply HOLD in H. apply (zv_row_hold c I j m t H).
+  - intros _. exists i. zc. rewrite fupd_same. discriminate.
+Qed.
+
+Lemma zinv_get_fail c i :
+  ZInv c -> z_pc c i = ZLoop -> all_filled (z_n c) (z_q c) = false ->
+  ZInv {| z_n := z_n c; z_q := z_q c; z_k := z_k c; z_p := z_p c; z_pc := fupd (z_pc c) i ZIdle; z_script := z_script c; z_log := z_log c |}.
+Proof.
+  intros I PC AF.
+  assert (HOLD : forall j m t, fupd (z_pc c) i ZIdle j = ZHold m t <-> z_pc c j = ZHold m t).
+  { intros j m t. fu j i; [rewrite PC; split; discriminate | tauto]. }
+  constructor; zc.
+  - apply (zv_q c I).
+  - intro m. rewrite (zv_cover c I m). unfold holding. zc. split; (intros [H|(j & t & H)]; [now left | right; exists j, t; now apply HOLD]).
+  - apply (zv_nodup c I).
+  - intros j m t H. apply HOLD in H. apply (zv_hold_new c I j m t H).
+  - intros j j' m t t' H H'. apply HOLD in H. apply HOLD in H'. apply (zv_hold_one c I j j' m t t' H H').
+  - apply (zv_row_log c I).
+  - intros j m t H. apply HOLD in H. apply (zv_row_hold c I j m t H).
+  - rewrite AF. discriminate.
+Qed.
+
+Lemma zinv_get_ok c i :
+  ZInv c -> z_pc c i = ZLoop -> all_filled (z_n c) (z_q c) = true ->
+  ZInv {| z_n := z_n c; z_q := pops (z_n c) (z_q c); z_k := z_k c; z_p := S (z_p c);
+          z_pc := fupd (z_pc c) i (ZHold (z_p c) (fronts (z_n c) (z_q c))); z_script := z_script c; z_log := z_log c |}.
+Proof.
+  intros I PC AF. pose proof (proj1 (all_filled_spec _ _) AF) as NE.
+  assert (LTK : forall j, j < z_n c -> z_p c < z_k c j).
+  { intros j Hj. pose proof (zq_len c j I Hj) as L. specialize (NE j Hj). destruct (z_q c j); [congruence | cbn [length] in L; lia]. }
+  assert (OLD : forall j m t, j <> i -> (fupd (z_pc c) i (ZHold (z_p c) (fronts (z_n c) (z_q c))) j = ZHold m t <-> z_pc c j = ZHold m t)).
+  { intros j m t H. now rewrite (fupd_other _ _ _ _ H). }
+  assert (NOP : forall j t, z_pc c j = ZHold (z_p c) t -> False).
+  { intros j t H. assert (z_p c < z_p c); [|lia]. apply (zv_cover c I). right. now exists j, t. }
+  constructor; zc.
+  - intros j Hj. destruct (zv_q c I j Hj) as (A & B & C). split; [exact A|]. split; [apply (LTK j Hj)|].
+    unfold pops. apply Nat.ltb_lt in Hj. rewrite Hj, C. now rewrite skipn_S_tl.
+  - intro m. unfold holding. zc. split.
+    + intro H. destruct (Nat.eq_dec m (z_p c)) as [->|NEQ].
+      * right. exists i, (fronts (z_n c) (z_q c)). now rewrite fupd_same.
+      * assert (H' : m < z_p c) by lia. apply (zv_cover c I) in H'. destruct H' as [H'|(j & t & H')]; [now left|].
+        right. exists j, t. apply OLD; auto. intro E. subst. rewrite PC in H'. discriminate.
+    + intros [H|(j & t & H)].
+      * assert (m < z_p c) by (apply (zv_cover c I); now left). lia.
+      * fu j i; [injection H as <- _; lia|]. assert (m < z_p c) by (apply (zv_cover c I); right; now exists j, t). lia.
+  - apply (zv_nodup c I).
+  - intros j m t H. fu j i.
+    + injection H as <- _. intro IN. assert (z_p c < z_p c); [|lia]. apply (zv_cover c I). now left.
+    + apply (zv_hold_new c I j m t H).
+  - intros j j' m t t' H H'. fu j i; fu j' i; auto.
+    + injection H as <- _. exfalso. apply (NOP j' t' H').
+    + injection H' as <- _. exfalso. apply (NOP j t H).
+    + apply (zv_hold_one c I j j' m t t' H H').
+  - apply (zv_row_log c I).
+  - intros j m t H. fu j i; [|apply (zv_row_hold c I j m t H)].
+    injection H as <- <-. unfold fronts, row. apply map_ext_in. intros j Hj. apply in_seq in Hj.
+    destruct (zv_q c I j ltac:(lia)) as (A & B & C). rewrite C. apply hd_skipn_firstn; [apply LTK; lia | exact A].
+  - intros _. exists i. zc. rewrite fupd_same. discriminate.
+Qed.
+
+Lemma zinv_deliver c i m t :
+  ZInv c -> z_pc c i = ZHold m t ->
+  ZInv {| z_n := z_n c; z_q := z_q c; z_k := z_k c; z_p := z_p c; z_pc := fupd (z_pc c) i ZLoop; z_script := z_script c;
+          z_log := z_log c ++ [(m, t)] |}.
+Proof.
+  intros I PC.
+  assert (HOLD : forall j m' t', fupd (z_pc c) i ZLoop j = ZHold m' t' <-> z_pc c j = ZHold m' t' /\ j <> i).
+  { intros j m' t'. fu j i; [split; [discriminate | intros [_ H]; congruence] | tauto]. }
+  constructor; zc; rewrite ?map_app; cbn [map fst].
+  - apply (zv_q c I).
+  - intro m'. rewrite (zv_cover c I m'), in_app_iff. unfold holding. zc. cbn [In]. split.
+    + intros [H|(j & t' & H)]; [now left; left|]. destruct (Nat.eq_dec j i) as [->|NE].
+      * rewrite PC in H. injection H as <- _. left. right. now left.
+      * right. exists j, t'. apply HOLD. now split.
+    + intros [[H|[<-|[]]]|(j & t' & H)]; [now left | right; now exists i, t |]. apply HOLD in H. right. exists j, t'. tauto.
+  - apply nodup_snoc'; [apply (zv_nodup c I) | apply (zv_hold_new c I i m t PC)].
+  - intros j m' t' H. apply HOLD in H. destruct H as [H NE]. rewrite in_app_iff. cbn [In]. intros [IN|[<-|[]]].
+    + apply (zv_hold_new c I j m' t' H IN).
+    + apply NE. apply (zv_hold_one c I j i m t' t H PC).
+  - intros j j' m' t1 t2 H H'. apply HOLD in H. apply HOLD in H'. apply (zv_hold_one c I j j' m' t1 t2); tauto.
+  - intros m' t' H. apply in_app_iff in H. destruct H as [H|[H|[]]]; [apply (zv_row_log c I m' t' H)|].
+    inversion H; subst. apply (zv_row_hold c I i m' t' PC).
+  - intros j m' t' H. apply HOLD in H. apply (zv_row_hold c I j m' t'); tauto.
+  - intros _. exists i. zc. rewrite fupd_same. discriminate.
+Qed.
+
+Lemma zstep_inv c a : ZInv c -> ZInv (zstep c a).
+Proof.
+  intro I. destruct a as [i|i|i]; unfold zstep.
+  - destruct (z_pc c i) eqn:PC; try exact I. destruct (Nat.ltb i (z_n c)) eqn:A; [|exact I]. destruct (Nat.ltb (z_k c i) _) eqn:B; [|exact I].
+    cbn [andb]. apply Nat.ltb_lt in A. apply Nat.ltb_lt in B. now apply zinv_push.
+  - destruct (z_pc c i) eqn:PC; try exact I. destruct (all_filled (z_n c) (z_q c)) eqn:AF; [now apply zinv_get_ok | now apply zinv_get_fail].
+  - destruct (z_pc c i) eqn:PC; try exact I. now apply zinv_deliver.
+Qed.
+
+Lemma zinit_inv n scripts : 1 <= n -> ZInv (zinit n scripts).
+Proof.
+  intro N. constructor; unfold zinit, holding; zc.
+  - intros i Hi. split; [lia|]. split; [lia|]. reflexivity.
+  - intro m. split; [lia | intros [[]|(i & t & H)]; discriminate].
+  - constructor.
+  - discriminate.
+  - discriminate.
+  - intros m t [].
+  - discriminate.
+  - intro H. exfalso. apply (proj1 (all_filled_spec n (fun _ => []))) with (i := 0) in H; [congruence | lia].
+Qed.
+
+Lemma zrun_inv acts : forall c, ZInv c -> ZInv (zrun acts c).
+Proof. induction acts as [|a acts IH]; intros c I; cbn [zrun fold_left]; auto. apply IH. now apply zstep_inv. Qed.
+
+Lemma zstep_const c a : z_n (zstep c a) = z_n c /\ z_script (zstep c a) = z_script c.
+Proof.
+  destruct a as [i|i|i]; unfold zstep; destruct (z_pc c i); auto.
+  - destruct (_ && _); auto.
+  - destruct (all_filled _ _); auto.
+Qed.
+Lemma zrun_const acts : forall c, z_n (zrun acts c) = z_n c /\ z_script (zrun acts c) = z_script c.
+Proof.
+  induction acts as [|a acts IH]; intro c; cbn [zrun fold_left]; auto. fold (zrun acts (zstep c a)).
+  destruct (IH (zstep c a)) as [A B]. destruct (zstep_const c a) as [A' B']. split; congruence.
+Qed.
+
+Lemma forallb_false_ex {A} (f : A -> bool) l : forallb f l = false -> exists x, In x l /\ f x = false.
+Proof.
+  induction l as [|x l IH]; cbn [forallb]; [discriminate|]. intro H. apply andb_false_iff in H. destruct H as [H|H].
+  - exists x. split; [now left | exact H].
+  - destruct (IH H) as (y & Hy & B). exists y. split; [now right | exact B].
+Qed.
+Lemma not_all_filled n q : all_filled n q = false -> exists i, i < n /\ q i = [].
+Proof.
+  intro H. apply forallb_false_ex in H. destruct H as (i & A & B). apply in_seq in A. exists i. split; [lia|].
+  destruct (q i); [reflexivity | discriminate].
+Qed.
+
+(* at every moment, under every interleaving: the tuple with index m pairs the m-th items of all inputs, no index
+   is delivered twice, and no tuple is formed beyond the shortest script *)
+Theorem zip_pairs n scripts acts :
+  1 <= n ->
+  let c := zrun acts (zinit n scripts) in
+  NoDup (map fst (z_log c)) /\
+  (forall m t, In (m, t) (z_log c) -> m < z_p c /\ t = row n scripts m) /\
+  (forall i, i < n -> z_p c <= length (scripts i)).
+Proof.
+  intros N c. assert (I : ZInv c) by (apply zrun_inv, zinit_inv, N).
+  destruct (zrun_const acts (zinit n scripts)) as [CN CS]. fold c in CN, CS. cbn in CN, CS.
+  split; [apply (zv_nodup c I)|]. split.
+  - intros m t H. split.
+    + apply (zv_cover c I). left. apply in_map_iff. now exists (m, t).
+    + rewrite <- CN, <- CS. apply (zv_row_log c I m t H).
+  - intros i Hi. rewrite <- CN in Hi. destruct (zv_q c I i Hi) as (A & B & _). rewrite <- CS. lia.
+Qed.
+
+(* when nothing can move any more every formed tuple has been delivered exactly once and their number is the length
+   of the shortest script *)
+Theorem zip_all_delivered n scripts acts :
+  1 <= n ->
+  let c := zrun acts (zinit n scripts) in
+  (forall a, zstep c a = c) ->
+  (forall m, m < z_p c <-> In m (map fst (z_log c))) /\
+  (exists i, i < n /\ z_p c = length (scripts i)) /\ (forall i, i < n -> z_p c <= length (scripts i)).
+Proof.
+  intros N c Q. assert (I : ZInv c) by (apply zrun_inv, zinit_inv, N).
+  destruct (zrun_const acts (zinit n scripts)) as [CN CS]. fold c in CN, CS. cbn in CN, CS.
+  assert (IDLE : forall i, z_pc c i = ZIdle).
+  { intro i. destruct (z_pc c i) eqn:PC; auto; exfalso.
+    - pose proof (Q (ZGet i)) as E. unfold zstep in E. rewrite PC in E.
+      destruct (all_filled (z_n c) (z_q c)); apply (f_equal (fun x => z_pc x i)) in E; zc_in E; rewrite fupd_same, PC in E; discriminate.
+    - pose proof (Q (ZDeliver i)) as E. unfold zstep in E. rewrite PC in E.
+      apply (f_equal (fun x => z_pc x i)) in E; zc_in E; rewrite fupd_same, PC in E; discriminate. }
+  split; [|split].
+  - intro m. rewrite (zv_cover c I m). split; [|now left]. intros [H|(i & t & H)]; auto. rewrite IDLE in H. discriminate.
+  - destruct (all_filled (z_n c) (z_q c)) eqn:AF.
+    + destruct (zv_live c I AF) as [i H]. now rewrite IDLE in H.
+    + destruct (not_all_filled _ _ AF) as (i & Hi & E). exists i. split; [lia|].
+      pose proof (zq_len c i I Hi) as L. rewrite E in L. cbn [length] in L.
+      destruct (zv_q c I i Hi) as (A & B & _).
+      destruct (Nat.ltb (z_k c i) (length (z_script c i))) eqn:LT.
+      * exfalso. pose proof (Q (ZPush i)) as E'. unfold zstep in E'. rewrite IDLE in E'. apply Nat.ltb_lt in Hi. rewrite Hi, LT in E'. cbn [andb] in E'.
+        apply (f_equal (fun x => z_pc x i)) in E'. zc_in E'. rewrite fupd_same, IDLE in E'. discriminate.
+      * apply Nat.ltb_ge in LT. rewrite <- CS. lia.
+  - intros i Hi. rewrite <- CN in Hi. destruct (zv_q c I i Hi) as (A & B & _). rewrite <- CS. lia.
+Qed.
+
+(* ================================================================== amb *)
+Ltac ac := cbn [a_win a_k a_pc a_script a_log].
+Ltac ac_in H := cbn [a_win a_k a_pc a_script a_log] in H.
+
+Record AInv (c : acfg) : Prop := {
+  av_none : a_win c = None -> a_log c = [] /\ forall i, a_pc c i = AIdle /\ a_k c i = 0;
+  av_some : forall w, a_win c = Some w ->
+            (forall i, a_pc c i = AEmit -> i = w) /\
+            (a_pc c w = AEmit -> a_k c w < length (a_script c w)) /\
+            a_k c w <= length (a_script c w) /\
+            a_log c = map (fun v => (w, v)) (firstn (a_k c w) (a_script c w)) }.
+
+Lemma astep_inv c a : AInv c -> AInv (astep c a).
+Proof.
+  intro I. destruct a as [i|i]; unfold astep.
+  - destruct (a_pc c i) eqn:PC; try exact I. destruct (Nat.ltb (a_k c i) (length (a_script c i))) eqn:LT; [|exact I].
+    apply Nat.ltb_lt in LT. destruct (a_win c) as [w|] eqn:W.
+    + destruct (av_some c I w W) as (A & B & C & D). constructor; ac; [discriminate|].
+      intros w' E. try rewrite W in E. injection E as <-. split; [|split; [|split]]; auto.
+      * intros j H. fu j i; [|now apply A]. destruct (Nat.eqb w i) eqn:E; [apply Nat.eqb_eq in E; congruence | discriminate].
+      * intro H. fu w i; auto.
+    + destruct (av_none c I W) as [L Z]. constructor; ac; [discriminate|].
+      intros w E. injection E as <-. split; [|split; [|split]].
+      * intros j H. fu j i; auto. destruct (Z j) as [Y _]. congruence.
+      * intros _. exact LT.
+      * lia.
+      * destruct (Z i) as [_ K]. rewrite L, K. reflexivity.
+  - destruct (a_pc c i) eqn:PC; try exact I. destruct (a_win c) as [w|] eqn:W.
+    + destruct (av_some c I w W) as (A & B & C & D). assert (i = w) by now apply A. subst i.
+      constructor; ac; rewrite ?W; [discriminate|]. intros w' E. try rewrite W in E. injection E as <-. rewrite !fupd_same. split; [|split; [|split]].
+      * intros j H. fu j w; auto.
+      * discriminate.
+      * specialize (B PC). lia.
+      * rewrite D, firstn_S_nth' by (apply B; exact PC). now rewrite map_app.
+    + destruct (av_none c I W) as [_ Z]. destruct (Z i) as [Y _]. congruence.
+Qed.
+Lemma ainit_inv scripts : AInv (ainit scripts).
+Proof. constructor; unfold ainit; ac; [auto | discriminate]. Qed.
+Lemma arun_inv acts : forall c, AInv c -> AInv (arun acts c).
+Proof. induction acts as [|a acts IH]; intros c I; cbn [arun fold_left]; auto. apply IH. now apply astep_inv. Qed.
+Lemma astep_script c a : a_script (astep c a) = a_script c.
+Proof.
+  destruct a as [i|i]; unfold astep; destruct (a_pc c i); auto.
+  destruct (Nat.ltb _ _); auto. destruct (a_win c); auto.
+Qed.
+Lemma arun_script acts : forall c, a_script (arun acts c) = a_script c.
+Proof. induction acts as [|a acts IH]; intro c; cbn [arun fold_left]; auto. fold (arun acts (astep c a)). now rewrite IH, astep_script. Qed.
+
+(* under every interleaving exactly one input gets through: everything delivered comes from the winner, and it is a
+   prefix of the winner's script in order *)
+Theorem amb_one_input scripts acts :
+  let c := arun acts (ainit scripts) in
+  a_log c = [] \/ exists w, a_win c = Some w /\ a_log c = map (fun v => (w, v)) (firstn (a_k c w) (scripts w)).
+Proof.
+  intro c. assert (I : AInv c) by (apply arun_inv, ainit_inv).
+  assert (S : a_script c = scripts) by (unfold c; now rewrite arun_script).
+  destruct (a_win c) as [w|] eqn:W.
+  - right. exists w. split; auto. destruct (av_some c I w W) as (_ & _ & _ & D). now rewrite D, S.
+  - left. now destruct (av_none c I W).
+Qed.
+
+(* ================================================================== take *)
+Ltac kc := cbn [k_count k_n k_open k_pc k_log].
+Ltac kc_in H := cbn [k_count k_n k_open k_pc k_log] in H.
+Lemma kslots_app l1 l2 : kslots (l1 ++ l2) = kslots l1 ++ kslots l2.
+Proof. unfold kslots. apply flat_map_app. Qed.
+Lemma kdones_app l1 l2 : kdones (l1 ++ l2) = kdones l1 + kdones l2.
+Proof. unfold kdones. now rewrite filter_app, app_length. Qed.
+
+Record KInv (c : kcfg) : Prop := {
+  kv_slots : forall nn, In nn (kslots (k_log c)) -> nn < k_n c /\ nn < k_count c;
+  kv_nodup : NoDup (kslots (k_log c));
+  kv_go : forall i nn, k_pc c i = KGo nn -> nn < k_n c /\ ~ In nn (kslots (k_log c));
+  kv_one : forall i j nn, k_pc c i = KGo nn -> k_pc c j = KGo nn -> i = j;
+  kv_done : if k_open c then kdones (k_log c) = 0 else exists body, k_log c = body ++ [KDone] /\ kdones body = 0 }.
+
+Lemma kstep_inv c a : KInv c -> KInv (kstep c a).
+Proof.
+  intro I. destruct a as [i|i v|i]; unfold kstep; destruct (k_pc c i) eqn:PC; try exact I.
+  - constructor; kc.
+    + intros nn H. destruct (kv_slots c I nn H). split; lia.
+    + apply (kv_nodup c I).
+    + intros j nn H. fu j i.
+      * injection H as <-. split; [lia|]. intro H. apply (kv_slots c I) in H. lia.
+      * destruct (kv_go c I j nn H). split; [lia | auto].
+    + intros j j' nn H H'. fu j i; fu j' i; auto.
+      * injection H as <-. apply (kv_go c I) in H'. lia.
+      * injection H' as <-. apply (kv_go c I) in H. lia.
+      * apply (kv_one c I j j' nn H H').
+    + apply (kv_done c I).
+  - destruct (kv_go c I i nn PC) as [LT NEW].
+    assert (GO : forall j nn', fupd (k_pc c) i (if Nat.leb (k_count c) (S nn) then KEnd else KIdle) j = KGo nn' -> k_pc c j = KGo nn' /\ j <> i).
+    { intros j nn' H. fu j i; [destruct (Nat.leb _ _); discriminate | auto]. }
+    destruct (Nat.ltb nn (k_count c) && k_open c) eqn:E.
+    + apply andb_true_iff in E. destruct E as [E1 E2]. apply Nat.ltb_lt in E1.
+      constructor; kc; rewrite ?kslots_app; cbn [kslots flat_map app].
+      * intros x H. apply in_app_iff in H. destruct H as [H|[<-|[]]]; [apply (kv_slots c I x H) | split; lia].
+      * apply nodup_snoc'; [apply (kv_nodup c I) | exact NEW].
+      * intros j nn' H. apply GO in H. destruct H as [H NE]. destruct (kv_go c I j nn' H) as [A B]. split; [exact A|].
+        rewrite in_app_iff. cbn [In]. intros [X|[<-|[]]]; [auto|]. apply NE. apply (kv_one c I j i nn H PC).
+      * intros j j' nn' H H'. apply GO in H. apply GO in H'. apply (kv_one c I j j' nn'); tauto.
+      * pose proof (kv_done c I) as D. rewrite E2 in *. rewrite kdones_app, D. reflexivity.
+    + constructor; kc.
+      * apply (kv_slots c I).
+      * apply (kv_nodup c I).
+      * intros j nn' H. apply GO in H. apply (kv_go c I j nn'); tauto.
+      * intros j j' nn' H H'. apply GO in H. apply GO in H'. apply (kv_one c I j j' nn'); tauto.
+      * apply (kv_done c I).
+  - assert (GO : forall j nn', fupd (k_pc c) i KIdle j = KGo nn' -> k_pc c j = KGo nn').
+    { intros j nn' H. fu j i; [discriminate | auto]. }
+    constructor; kc.
+    + intros nn H. destruct (k_open c); [rewrite kslots_app in H; cbn [kslots flat_map app] in H; rewrite app_nil_r in H|]; apply (kv_slots c I nn H).
+    + destruct (k_open c); [rewrite kslots_app; cbn [kslots flat_map app]; rewrite app_nil_r|]; apply (kv_nodup c I).
+    + intros j nn H. apply GO in H. destruct (kv_go c I j nn H) as [A B]. split; [exact A|].
+      destruct (k_open c); [rewrite kslots_app; cbn [kslots flat_map app]; rewrite app_nil_r|]; exact B.
+    + intros j j' nn H H'. apply GO in H. apply GO in H'. apply (kv_one c I j j' nn H H').
+    + pose proof (kv_done c I) as D. destruct (k_open c); [exists (k_log c); split; auto | exact D].
+Qed.
+Lemma kinit_inv count : KInv (kinit count).
+Proof. constructor; unfold kinit; kc; try discriminate; try (intros nn []); auto. constructor. Qed.
+Lemma krun_inv acts : forall c, KInv c -> KInv (krun acts c).
+Proof. induction acts as [|a acts IH]; intros c I; cbn [krun fold_left]; auto. apply IH. now apply kstep_inv. Qed.
+Lemma kstep_count c a : k_count (kstep c a) = k_count c.
+Proof. destruct a as [i|i v|i]; unfold kstep; destruct (k_pc c i); auto. Qed.
+Lemma krun_count acts : forall c, k_count (krun acts c) = k_count c.
+Proof. induction acts as [|a acts IH]; intro c; cbn [krun fold_left]; auto. fold (krun acts (kstep c a)). now rewrite IH, kstep_count. Qed.
+
+Lemma nodup_bounded (l : list nat) n : NoDup l -> (forall x, In x l -> x < n) -> length l <= n.
+Proof.
+  intros N B. rewrite <- (seq_length n 0). apply NoDup_incl_length; auto. intros x H. apply in_seq. specialize (B x H). lia.
+Qed.
+
+(* under every interleaving of any number of upstream threads: at most `count` items, each with its own slot number
+   below count; at most one complete, and nothing after it *)
+Theorem take_at_most count acts :
+  let c := krun acts (kinit count) in
+  length (kslots (k_log c)) <= count /\ NoDup (kslots (k_log c)) /\ kdones (k_log c) <= 1 /\
+  (k_open c = false -> exists body, k_log c = body ++ [KDone] /\ kdones body = 0).
+Proof.
+  intro c. assert (I : KInv c) by (apply krun_inv, kinit_inv).
+  assert (C : k_count c = count) by (unfold c; now rewrite krun_count).
+  split; [|split; [|split]].
+  - apply nodup_bounded; [apply (kv_nodup c I)|]. intros x H. rewrite <- C. now apply (kv_slots c I).
+  - apply (kv_nodup c I).
+  - pose proof (kv_done c I) as D. destruct (k_open c); [lia|]. destruct D as (b & -> & D). rewrite kdones_app, D. cbn. lia.
+  - intro O. pose proof (kv_done c I) as D. now rewrite O in D.
 Qed.
